@@ -189,7 +189,7 @@ fn gen_base(rng: &mut Rng) -> ConnScenario {
             after_ack: true, at_ns: ms(rng.range(1, 60_000)), id: 0x04, body: Body::KeepAlive { id: KaId::Fixed(rng.next_u64()) } });
     }
     // a client that never echoes: the reference outcome is the timeout, whatever the transport does
-    if rng.chance(1, 10) {
+    if rng.chance(1, 6) {
         client.ka_default = crate::client::KaPolicy::Never;
     }
     // a long session cookie makes a long login-phase frame too
@@ -296,7 +296,15 @@ fn generate(rng: &mut Rng, index: u64) -> C08Sc {
         // until the service that is running at that moment completes (the keep-alive future is dropped
         // mid-write), or for a while
         _ if index % 8 == 7 && refo.view.first("KeepAlive").is_some() => {
-            let kas: Vec<usize> = refo.view.packets.iter().enumerate().filter(|(_, p)| p.kind == "KeepAlive").map(|(i, _)| i).collect();
+            // (for a client that is timed out, the timeout Disconnect is such a frame too - and the likeliest pick)
+            let mut kas: Vec<usize> = refo.view.packets.iter().enumerate().filter(|(_, p)| p.kind == "KeepAlive").map(|(i, _)| i).collect();
+            if refo.result == "MissedKeepAlive"
+                && let Some(d) = refo.view.packets.iter().position(|p| p.kind == "Disconnect")
+            {
+                for _ in 0..kas.len().max(1) {
+                    kas.push(d);
+                }
+            }
             let ki = *rng.pick(&kas);
             let off: usize = refo.view.packets[..ki].iter().map(|p| p.len + crate::codec::varint(p.len as i32).len()).sum();
             // the write call that carries this frame in the reference execution (every write is accepted whole there)
